@@ -401,8 +401,8 @@ def _r2_path(prog, f, p, owning, acquire, release, by_addr, bad, oks):
                 if x.kind == "store" and x.a.isidentifier() and x.a not in names and x.b[0] == "s" and strip_tags(APE.vstr(x.b)) in names:
                     names.add(x.a)
                     grew = True
-        fresh = any(x.kind == "store" and x.a == obj and APE.vstr(x.b).startswith(("my_calloc(", "calloc(", "my_malloc(")) for x in before) \
-            and obj.isidentifier()
+        fresh = any(x.kind == "store" and x.a in names and x.a.isidentifier() and APE.vstr(x.b).startswith(("my_calloc(", "calloc(", "my_malloc("))
+                    for x in before)
         for (_r, fld) in flds:
             key = "free(%s):%s.%s" % (obj, rec, fld)
             if (rec, fld) in FIELD_EXCEPTIONS:
@@ -423,8 +423,8 @@ def _r2_path(prog, f, p, owning, acquire, release, by_addr, bad, oks):
                     if re.sub(r"@\d+", "", x.a) in refs:
                         vs = APE.vstr(x.b)
                         assigned = True
-                        if x.b == ("c", 0):
-                            assigned = False
+                        if x.b == ("c", 0) or p.cons.get((vs, "#0")) == frozenset((EQ,)):
+                            assigned = False     # NULL stored (a constant, or a result this path has established to be NULL)
                         # failed acquisition stored
                         for kfn, kind in acquire.items():
                             if vs.startswith(kfn + "(") and failed_acquire(p, vs, kind):
